@@ -146,3 +146,47 @@ Theorem C09_exists_closed :
 Proof. exact exists_refines. Qed.
 Print Assumptions C09_exists_closed.
 
+
+(* ---- operation level: one result sequence explains FindAll, Count, ForEach, Exists and FindFirst after any history of the domain ---- *)
+From Clover Require Import HistDom HistoryProofs OpQueryProofs.
+Theorem C09_history_reads_agree : forall ops q mode0 nq,
+  hist_dom empty_db (ops ++ [OFindAll q mode0]) ->
+  let h := snd (run_ops empty_db ops) in
+  closed h = false ->
+  normalize_query (mk_query q) = Some nq ->
+  exists db, wf_db db /\ R db (durable h) /\
+    forall sc, assoc (nq_coll nq) db = Some sc ->
+      exists res,
+        find_ok' (map snd (sc_docs sc)) nq res /\
+        (forall mode, fst (step h (OFindAll q mode)) = T_ok (T_of_docs (nq_sort nq) mode res)) /\
+        fst (step h (OCount q)) = T_ok (TZ (Z.of_nat (length res))) /\
+        (forall n mode, fst (step h (OForEach q n mode)) =
+           T_ok (T_of_docs (nq_sort nq) mode (if 0 <? n then firstn (Z.to_nat n) res else res))) /\
+        (nq_limit nq <> 0 ->
+           fst (step h (OExists q)) = T_ok (Tbool (match res with [] => false | _ => true end)) /\
+           fst (step h (OFindFirst q)) = T_ok (T_of_opt_doc (hd_error res))).
+Proof. exact history_reads_agree. Qed.
+Print Assumptions C09_history_reads_agree.
+
+Theorem C09_history_find_by_id : forall ops c id,
+  hist_dom empty_db (ops ++ [OFindById c id]) ->
+  let h := snd (run_ops empty_db ops) in
+  closed h = false ->
+  exists db, wf_db db /\ R db (durable h) /\
+    fst (step h (OFindById c id)) =
+      match assoc c db with
+      | None => T_err ECollNotExist
+      | Some sc => T_ok (T_of_opt_doc (assoc id (sc_docs sc)))
+      end /\
+    snd (step h (OFindById c id)) = h.
+Proof. exact history_find_by_id. Qed.
+Print Assumptions C09_history_find_by_id.
+
+(* the hypothesis [nq_limit nq <> 0] above cannot be dropped: Exists and FindFirst overwrite the limit with 1 *)
+Theorem C09_limit0_needed :
+  let h := snd (run_ops empty_db oq_hist) in
+  fst (step h (OFindAll (RProofs.ex_c, [QLimit 0]) 2)) = T_ok (TL []) /\
+  fst (step h (OExists (RProofs.ex_c, [QLimit 0]))) = T_ok (Tbool true) /\
+  fst (step h (OFindFirst (RProofs.ex_c, [QLimit 0]))) = T_ok (T_of_opt_doc (Some RProofs.ex_d1)).
+Proof. exact oq_limit0. Qed.
+Print Assumptions C09_limit0_needed.
